@@ -478,6 +478,13 @@ func (ctx *actorContext) ProcessUserMessage(message prc.Message) {
 
 func (ctx *actorContext) ProcessSystemMessage(message prc.Message) {
 	sender, receiver, message := prc.UnwrapMessage(message)
+	if ctx.status.Load() == actorStatusTerminated {
+		// a terminated actor handles nothing any more: of the system messages still queued only watch
+		// requests are served (they are answered with the termination notice)
+		if _, ok := message.(*messages.Watch); !ok {
+			return
+		}
+	}
 	if ctx.slowProcessDuration > 0 {
 		f := ctx.slowProcess()
 		defer f()
